@@ -94,6 +94,13 @@ def configs(tier, seed):
                         relations=[{"source": "s4", "target": "s2", "parameter": "rel1", "interval": [[1.0, 1.0], [4.0, INF]]}],
                         constraints=[{"type": "zero", "target": "s3", "interval": [2.0, 3.0]},
                                      {"type": "only", "target": "s1", "interval": [-INF, 3.0]}]))
+        # a relation and a zero constraint on the same target with different intervals; a penalty over the target makes the
+        # retrieved (full) clps of every index part of the objective: 0 where constrained, parameter x source where related
+        out.append(dict(base, name=f"multi-relation-and-zero-same-target-{tag}", kind="multi",
+                        relations=[{"source": "s1", "target": "s2", "parameter": "rel1", "interval": [1.0, 2.0]}],
+                        constraints=[{"type": "zero", "target": "s2", "interval": [3.0, 4.0]}],
+                        penalties=[{"source": "s2", "source_intervals": [[1.0, 4.0]], "target": "s3", "target_intervals": [[1.0, 4.0]],
+                                    "parameter": "pen1"}]))
         out.append(dict(base, name=f"multi-two-penalties-{tag}", kind="multi",
                         penalties=[{"source": "s1", "source_intervals": [[1.0, 2.0]], "target": "s2", "target_intervals": [[3.0, INF]], "parameter": "pen1"},
                                    {"source": "s3", "source_intervals": [[4.0, 2.6]], "target": "s4", "target_intervals": [[1.0, 1.4], [3.6, 9.0]],
